@@ -32,6 +32,10 @@ def plan(tier, seed):
                    payload=dict(func="vf.pyshim.lemma_v2:v2_inplace")))
     from . import bytearray as BA
     js += BA.jobs("C03", tier, which=("h_unpack",))
+    from .e2 import ch
+    for h in ("h_convert_intlike", "h_convert_decimal_bytes"):
+        js.append(ch("C03", "vf/pyshim/h_convert.py", h, 90 if tier == "quick" else 300,
+                     ["converted_types.convert (integer-like and DECIMAL converted types)"]))
     try:
         from . import pageloop
         js += pageloop.jobs("C03", tier, seed)
